@@ -53,7 +53,11 @@ M('C01', 'power-iter-unmasked-start', DS, "    v_0 *= (jnp.arange(len(v_0), dtyp
 M('C01', 'power-iter-on-unmasked-matrix', DS, "      _, max_ev = power_iteration(\n          matrix=matrix,\n          num_iters=100,\n          error_tolerance=1e-6,", "      _, max_ev = power_iteration(\n          matrix=original_matrix * 2.0,\n          num_iters=100,\n          error_tolerance=1e-6,")
 M('C01', 'eigh-error-unmasked-const', DS, "  error = jnp.max(jnp.abs(eig_error))\n  error_metrics = TrainingMetrics(\n      inverse_pth_root_errors=jnp.array(error, jnp.float32))\n  if padding_start is not None:\n    val = jnp.where(padding_start == 0, 0.0, val)\n    error = jnp.where(padding_start == 0, 0.0,\n                      error_metrics.inverse_pth_root_errors)\n    error_metrics = error_metrics.replace(inverse_pth_root_errors=error)\n  val = jnp.asarray(val, orig_dtype)\n  return val, error_metrics\n\n\ndef _low_rank_root(",
   "  error = jnp.min(jnp.abs(eig_error))\n  error_metrics = TrainingMetrics(\n      inverse_pth_root_errors=jnp.array(error, jnp.float32))\n  if padding_start is not None:\n    val = jnp.where(padding_start == 0, 0.0, val)\n    error = jnp.where(padding_start == 0, 0.0,\n                      error_metrics.inverse_pth_root_errors)\n    error_metrics = error_metrics.replace(inverse_pth_root_errors=error)\n  val = jnp.asarray(val, orig_dtype)\n  return val, error_metrics\n\n\ndef _low_rank_root(")
-M('C01', 'eigh-no-clamp', DS, "  inv_e = jnp.where(e == 0.0, 0.0,\n                    jnp.power(jnp.maximum(e, ridge_epsilon), alpha))\n  val = mm(mm(u, jnp.diag(inv_e)), u.T)", "  inv_e = jnp.where(e == 0.0, 0.0,\n                    jnp.power(e, alpha))\n  val = mm(mm(u, jnp.diag(inv_e)), u.T)")
+M('C01', 'eigh-no-clamp', DS, "  clamped_e = jnp.maximum(e, ridge_epsilon)\n  inv_e = jnp.where((e == 0.0) | (clamped_e <= 0.0), 0.0,\n                    jnp.power(clamped_e, alpha))\n  val = mm(mm(u, jnp.diag(inv_e)), u.T)", "  clamped_e = e\n  inv_e = jnp.where((e == 0.0) | (clamped_e <= 0.0), 0.0,\n                    jnp.power(clamped_e, alpha))\n  val = mm(mm(u, jnp.diag(inv_e)), u.T)")
+M(['C01', 'C03'], 'F20-eigh-zero-ridge-guard', DS, "  clamped_e = jnp.maximum(e, ridge_epsilon)\n  inv_e = jnp.where((e == 0.0) | (clamped_e <= 0.0), 0.0,\n                    jnp.power(clamped_e, alpha))\n  val = mm(mm(u, jnp.diag(inv_e)), u.T)", "  clamped_e = jnp.maximum(e, ridge_epsilon)\n  inv_e = jnp.where(e == 0.0, 0.0,\n                    jnp.power(clamped_e, alpha))\n  val = mm(mm(u, jnp.diag(inv_e)), u.T)")
+M('C10', 'F20-lowrank-zero-ridge-guard', DS, "  clamped_e = jnp.maximum(e, ridge_epsilon)\n  inv_e = jnp.where((e == 0.0) | (clamped_e <= 0.0), 0.0,\n                    jnp.power(clamped_e, alpha))\n  assert abs(compression_rank) <= matrix_size", "  clamped_e = jnp.maximum(e, ridge_epsilon)\n  inv_e = jnp.where(e == 0.0, 0.0,\n                    jnp.power(clamped_e, alpha))\n  assert abs(compression_rank) <= matrix_size")
+M(['C01', 'C03'], 'eigh-guard-zeroes-ridge-lifted-directions', DS, "  inv_e = jnp.where((e == 0.0) | (clamped_e <= 0.0), 0.0,\n                    jnp.power(clamped_e, alpha))\n  val = mm(mm(u, jnp.diag(inv_e)), u.T)", "  inv_e = jnp.where(e <= 0.0, 0.0,\n                    jnp.power(clamped_e, alpha))\n  val = mm(mm(u, jnp.diag(inv_e)), u.T)")
+TW(['C01', 'C03'], 'twin-eigh-guard-negated', DS, "  inv_e = jnp.where((e == 0.0) | (clamped_e <= 0.0), 0.0,\n                    jnp.power(clamped_e, alpha))\n  val = mm(mm(u, jnp.diag(inv_e)), u.T)", "  live = jnp.logical_not((e == 0.0) | (clamped_e <= 0.0))\n  inv_e = jnp.where(live, jnp.power(clamped_e, alpha), 0.0)\n  val = mm(mm(u, jnp.diag(inv_e)), u.T)")
 M('C01', 'eigh-mask-one-axis', DS, "    matrix *= ix[jnp.newaxis, :]\n    matrix *= ix[:, jnp.newaxis]\n    identity *= ix\n  if relative_matrix_epsilon:\n    _, max_ev = power_iteration(\n        matrix=matrix,\n        num_iters=100,\n        error_tolerance=error_tolerance,\n        precision=precision,",
   "    matrix *= ix[jnp.newaxis, :]\n    identity *= ix\n  if relative_matrix_epsilon:\n    _, max_ev = power_iteration(\n        matrix=matrix,\n        num_iters=100,\n        error_tolerance=error_tolerance,\n        precision=precision,")
 M('C01', 'lowrank-epilogue-missing-error', DS, "    val = jnp.where(padding_start == 0, 0.0, val)\n    error = jnp.where(padding_start == 0, 0.0,\n                      error_metrics.inverse_pth_root_errors)\n    error_metrics = error_metrics.replace(inverse_pth_root_errors=error)\n  val = jnp.asarray(val, orig_dtype)\n  return val, error_metrics\n\n\ndef _fd_update_root(",
@@ -140,8 +144,7 @@ M('C01', 'eigh-ridge-subtracted', DS, "  regularized_input = matrix + ridge_epsi
   "  regularized_input = matrix - ridge_epsilon * identity\n  e, u = jnp.linalg.eigh(regularized_input)\n  # Due to padding, we may have to zero out eigenvalues.\n  if padding_start is not None:\n    e *= jnp.flip(ix)\n  mm = functools.partial(jnp.matmul, precision=precision)")
 M('C01', 'lowrank-absolute-ridge-doubled', DS, "    max_ev = 1.0\n  ridge_epsilon = ridge_epsilon * jnp.maximum(max_ev, error_tolerance)\n  regularized_input = matrix + ridge_epsilon * identity\n  e, u = jnp.linalg.eigh(regularized_input)\n  # Due to padding, we may have to zero out eigenvalues.\n  if padding_start is not None:\n    e *= jnp.flip(ix)\n  mm = functools.partial(jnp.matmul, precision=jax.lax.Precision.HIGHEST)",
   "    max_ev = 2.0\n  ridge_epsilon = ridge_epsilon * jnp.maximum(max_ev, error_tolerance)\n  regularized_input = matrix + ridge_epsilon * identity\n  e, u = jnp.linalg.eigh(regularized_input)\n  # Due to padding, we may have to zero out eigenvalues.\n  if padding_start is not None:\n    e *= jnp.flip(ix)\n  mm = functools.partial(jnp.matmul, precision=jax.lax.Precision.HIGHEST)")
-M('C01', 'lowrank-error-sign', DS, "  recovered_e = mm(u.T, mm(regularized_input, u))\n  eig_error = recovered_e - jnp.diag(e)\n  if padding_start is not None:\n    eig_error *= jnp.flip(ix)\n  error = jnp.max(jnp.abs(eig_error))\n  inv_e",
-  "  recovered_e = mm(u.T, mm(regularized_input, u))\n  eig_error = recovered_e + jnp.diag(e)\n  if padding_start is not None:\n    eig_error *= jnp.flip(ix)\n  error = jnp.max(jnp.abs(eig_error))\n  inv_e")
+M('C01', 'lowrank-error-sign', DS, "  recovered_e = mm(u.T, mm(regularized_input, u))\n  eig_error = recovered_e - jnp.diag(e)\n  if padding_start is not None:\n    eig_error *= jnp.flip(ix)\n  error = jnp.max(jnp.abs(eig_error))\n  # With a zero ridge", "  recovered_e = mm(u.T, mm(regularized_input, u))\n  eig_error = recovered_e + jnp.diag(e)\n  if padding_start is not None:\n    eig_error *= jnp.flip(ix)\n  error = jnp.max(jnp.abs(eig_error))\n  # With a zero ridge")
 M('C01', 'newton-ridge-divided', DS, "  ridge_epsilon = ridge_epsilon * jnp.maximum(max_ev, _EPSILON)\n", "  ridge_epsilon = ridge_epsilon / jnp.maximum(max_ev, _EPSILON)\n")
 M('C01', 'lobpcg-reference-ridge-subtracted', DS, "    unconditioned_damped_matrix = original_matrix + ridge_epsilon * identity\n", "    unconditioned_damped_matrix = original_matrix + ridge_epsilon / 2 * identity\n")
 TW('C01', 'twin-eigh-regularised-reordered', DS, "  regularized_input = matrix + ridge_epsilon * identity\n  e, u = jnp.linalg.eigh(regularized_input)\n  # Due to padding, we may have to zero out eigenvalues.\n  if padding_start is not None:\n    e *= jnp.flip(ix)\n  mm = functools.partial(jnp.matmul, precision=precision)",
